@@ -1,4 +1,5 @@
 """Regenerates lean/CppUModel/Gen/AssertShapes.lean (C03) from
+   src/Platforms/Gcc/UtestPlatform.cpp (IsNan / IsInf / Fabs implementations and wiring)
    src/CppUTest/Utest.cpp            (UtestShell::assert* bodies, doubles_equal)
    include/CppUTest/UtestMacros.h    (check macros: callee, operand expressions with their casts)
    src/CppUTest/TestHarness_c.cpp    (C entry points: parameter types, callee, operand expressions)
@@ -36,28 +37,16 @@ SIMPLE_MACROS = ["CHECK_TRUE_LOCATION", "CHECK_FALSE_LOCATION", "STRCMP_EQUAL_LO
                  "UNSIGNED_LONGLONGS_EQUAL_LOCATION", "SIGNED_BYTES_EQUAL_LOCATION", "SIGNED_BYTES_EQUAL_TEXT_LOCATION",
                  "POINTERS_EQUAL_LOCATION", "FUNCTIONPOINTERS_EQUAL_LOCATION", "DOUBLES_EQUAL_LOCATION",
                  "MEMCMP_EQUAL_LOCATION", "BITS_LOCATION", "FAIL_LOCATION", "FAIL_TEST_LOCATION"]
-FLOW_MACROS = ["CHECK_EQUAL_LOCATION", "CHECK_COMPARE_LOCATION", "ENUMS_EQUAL_TYPE_LOCATION"]
-FRONT_MACROS = ["CHECK", "CHECK_TEXT", "CHECK_TRUE", "CHECK_TRUE_TEXT", "CHECK_FALSE", "CHECK_FALSE_TEXT",
-                "CHECK_EQUAL", "CHECK_EQUAL_TEXT", "CHECK_EQUAL_ZERO", "CHECK_COMPARE", "CHECK_COMPARE_TEXT",
-                "STRCMP_EQUAL", "STRCMP_EQUAL_TEXT", "STRNCMP_EQUAL", "STRNCMP_EQUAL_TEXT",
-                "STRCMP_NOCASE_EQUAL", "STRCMP_NOCASE_EQUAL_TEXT", "STRCMP_CONTAINS", "STRCMP_CONTAINS_TEXT",
-                "STRCMP_NOCASE_CONTAINS", "STRCMP_NOCASE_CONTAINS_TEXT", "LONGS_EQUAL", "LONGS_EQUAL_TEXT",
-                "UNSIGNED_LONGS_EQUAL", "UNSIGNED_LONGS_EQUAL_TEXT", "LONGLONGS_EQUAL", "LONGLONGS_EQUAL_TEXT",
-                "UNSIGNED_LONGLONGS_EQUAL", "UNSIGNED_LONGLONGS_EQUAL_TEXT", "BYTES_EQUAL", "BYTES_EQUAL_TEXT",
-                "SIGNED_BYTES_EQUAL", "SIGNED_BYTES_EQUAL_TEXT", "POINTERS_EQUAL", "POINTERS_EQUAL_TEXT",
-                "FUNCTIONPOINTERS_EQUAL", "FUNCTIONPOINTERS_EQUAL_TEXT", "DOUBLES_EQUAL", "DOUBLES_EQUAL_TEXT",
-                "MEMCMP_EQUAL", "MEMCMP_EQUAL_TEXT", "BITS_EQUAL", "BITS_EQUAL_TEXT", "ENUMS_EQUAL_INT",
-                "ENUMS_EQUAL_INT_TEXT", "ENUMS_EQUAL_TYPE", "ENUMS_EQUAL_TYPE_TEXT", "FAIL", "FAIL_TEST"]
+FLOW_MACROS = ["CHECK_EQUAL_LOCATION", "CHECK_COMPARE_LOCATION", "ENUMS_EQUAL_TYPE_LOCATION", "CHECK_THROWS", "TEST_EXIT"]
+CHECK_NAME = re.compile(r"^(CHECK|STRCMP|STRNCMP|LONGS|UNSIGNED|LONGLONGS|BYTES|SIGNED|POINTERS|FUNCTIONPOINTERS|DOUBLES|MEMCMP|BITS|"
+                        r"ENUMS|FAIL|TEST_EXIT)")
+PLATFORM = "src/Platforms/Gcc/UtestPlatform.cpp"
 C_ENTRIES = ["CHECK_EQUAL_C_BOOL_LOCATION", "CHECK_EQUAL_C_INT_LOCATION", "CHECK_EQUAL_C_UINT_LOCATION",
              "CHECK_EQUAL_C_LONG_LOCATION", "CHECK_EQUAL_C_ULONG_LOCATION", "CHECK_EQUAL_C_LONGLONG_LOCATION",
              "CHECK_EQUAL_C_ULONGLONG_LOCATION", "CHECK_EQUAL_C_REAL_LOCATION", "CHECK_EQUAL_C_CHAR_LOCATION",
              "CHECK_EQUAL_C_UBYTE_LOCATION", "CHECK_EQUAL_C_SBYTE_LOCATION", "CHECK_EQUAL_C_STRING_LOCATION",
              "CHECK_EQUAL_C_POINTER_LOCATION", "CHECK_EQUAL_C_MEMCMP_LOCATION", "CHECK_EQUAL_C_BITS_LOCATION",
              "FAIL_TEXT_C_LOCATION", "FAIL_C_LOCATION", "CHECK_C_LOCATION"]
-C_FRONT = ["CHECK_EQUAL_C_BOOL", "CHECK_EQUAL_C_INT", "CHECK_EQUAL_C_UINT", "CHECK_EQUAL_C_LONG", "CHECK_EQUAL_C_ULONG",
-           "CHECK_EQUAL_C_LONGLONG", "CHECK_EQUAL_C_ULONGLONG", "CHECK_EQUAL_C_REAL", "CHECK_EQUAL_C_CHAR",
-           "CHECK_EQUAL_C_UBYTE", "CHECK_EQUAL_C_SBYTE", "CHECK_EQUAL_C_STRING", "CHECK_EQUAL_C_POINTER",
-           "CHECK_EQUAL_C_MEMCMP", "CHECK_EQUAL_C_BITS", "FAIL_TEXT_C", "FAIL_C", "CHECK_C"]
 # arguments that are not operands
 NOISE = {"text", "file", "line", "fileName", "lineNumber", "NULLPTR", "NULL", "__FILE__", "__LINE__", "S", "(text)",
          "checkString", "conditionString", "#condition"}
@@ -271,6 +260,27 @@ def c_entry(src, name):
     return operand_params(name, params), callee, args[:NOPERANDS[callee]]
 
 
+def platform_predicates():
+    """IsNan / IsInf / Fabs as wired in the Gcc platform: the model's class split nan / inf / finite is isnan / isinf of the
+    double itself and fabs is the C library's"""
+    src = strip_comments(read(PLATFORM))
+    out = []
+    for fn in ("IsNanImplementation", "IsInfImplementation"):
+        m = re.search(r"static\s+int\s+%s\s*\(\s*double\s+d\s*\)\s*\{" % fn, src)
+        if not m:
+            raise TranslateError("static int %s(double d) not found in %s" % (fn, PLATFORM))
+        k = m.end() - 1
+        out.append((fn, nows(src[k + 1:matching(src, k)])))
+    for ptr, sig in (("PlatformSpecificFabs", r"double\s*\(\s*\*\s*PlatformSpecificFabs\s*\)\s*\(\s*double\s*\)"),
+                     ("PlatformSpecificIsNan", r"int\s*\(\s*\*\s*PlatformSpecificIsNan\s*\)\s*\(\s*double\s*\)"),
+                     ("PlatformSpecificIsInf", r"int\s*\(\s*\*\s*PlatformSpecificIsInf\s*\)\s*\(\s*double\s*\)")):
+        m = re.search(sig + r"\s*=\s*([^;]+);", src)
+        if not m:
+            raise TranslateError("%s is not initialised in %s" % (ptr, PLATFORM))
+        out.append((ptr, nows(m.group(1))))
+    return out
+
+
 def lean_str(s):
     return '"' + s.replace("\\", "\\\\").replace('"', '\\"') + '"'
 
@@ -299,7 +309,10 @@ def extract():
     macros = read_macros(mtext)
     simple = [(n,) + simple_macro(macros, n) for n in SIMPLE_MACROS]
     flow = [(n, macro_body(macros, n)) for n in FLOW_MACROS]
-    front = [(n,) + front_macro(macros, n) for n in FRONT_MACROS]
+    # every check macro the header defines: a new or removed macro changes `allMacros`
+    all_macros = [n for n in macros if CHECK_NAME.match(n)]
+    front_names = [n for n in all_macros if n not in SIMPLE_MACROS and n not in FLOW_MACROS]
+    front = [(n,) + front_macro(macros, n) for n in front_names]
     # the byte mask of BYTES_EQUAL
     be = dict((n, (t, a)) for n, t, a in front)["BYTES_EQUAL"]
     mm = [re.match(r"^\((expected|actual)\)&(0[xX][0-9a-fA-F]+|\d+)$", a) for a in be[1]]
@@ -310,7 +323,9 @@ def extract():
     csrc = blank_strings(strip_comments(read(CSRC)))
     centries = [(n,) + c_entry(csrc, n) for n in C_ENTRIES]
     cmacros = read_macros(blank_strings(strip_comments(read(CHDR))))
-    cfront = [(n,) + front_macro(cmacros, n) for n in C_FRONT]
+    all_cmacros = [n for n in cmacros if CHECK_NAME.match(n)]
+    cfront = [(n,) + front_macro(cmacros, n) for n in all_cmacros]
+    platform = platform_predicates()
 
     t = HEADER % ("translate/extract_asserts.py", ", ".join([UTEST, MACROS, CSRC, CHDR]))
     t += "namespace Gen.AssertShapes\n\n"
@@ -339,6 +354,13 @@ def extract():
     t += "\n]\n\n"
     t += "def cFront : List (String × String × List String) := [\n"
     t += ",\n".join("  (%s, %s, %s)" % (lean_str(n), lean_str(c), lean_list(lean_str(x) for x in a)) for n, c, a in cfront)
+    t += "\n]\n\n"
+    t += "/-- every check macro defined by UtestMacros.h / TestHarness_c.h, in order -/\n"
+    t += "def allMacros : List String := %s\n\n" % lean_list(lean_str(x) for x in all_macros)
+    t += "def allCMacros : List String := %s\n\n" % lean_list(lean_str(x) for x in all_cmacros)
+    t += "/-- the platform predicates doubles_equal relies on (src/Platforms/Gcc/UtestPlatform.cpp) -/\n"
+    t += "def platformPredicates : List (String × String) := [\n"
+    t += ",\n".join("  (%s, %s)" % (lean_str(a), lean_str(b)) for a, b in platform)
     t += "\n]\n\nend Gen.AssertShapes\n"
     return t
 
